@@ -96,7 +96,16 @@ class Interp:
             fnb.__name__ = fname
             fnb._is_coroutine = __import__("asyncio").coroutines._is_coroutine
             fn = fnb
-        gen = self.w.counting_gen(r, items, iterfail)
+        # what the iterable really yields: for starmap the argument containers vary (tuple, list, one-shot iterator) -
+        # func(*x) takes any iterable; r["items"] keeps the canonical tuples for the oracles
+        shown = list(items)
+        if stars == 1:
+            for j in range(L):
+                if isinstance(items[j], tuple) and j % 3 == 1:
+                    shown[j] = list(items[j])
+                elif isinstance(items[j], tuple) and j % 3 == 2:
+                    shown[j] = iter(items[j])
+        gen = self.w.counting_gen(r, shown, iterfail)
         meth = (self.pool.map, self.pool.starmap, self.pool.doublestarmap)[stars]
         try:
             r["group"] = meth(fn, gen, num_concurrent=conc, group_name=group,
